@@ -418,7 +418,7 @@ func (w *World) IO(kind string, off, length int64, faults map[*Fake]Outcome) {
 		}
 	} else {
 		if nRW > 0 && nFail < nRW && off >= 0 && off+length <= pre.Size {
-			w.Fail("C05", fmt.Sprintf("read-failed-with-healthy-RW:RW%d:F%d", nRW, nFail), fmt.Sprintf("read failed (%v) although %d of %d RW replicas were healthy; faults %v; %s", err, nRW-nFail, nRW, fs, digest(pre, true)))
+			w.FailAny([]string{"C05", "C04"}, fmt.Sprintf("read-failed-with-healthy-RW:RW%d:F%d", nRW, nFail), fmt.Sprintf("read failed (%v) although %d of %d RW replicas were healthy; faults %v; %s", err, nRW-nFail, nRW, fs, digest(pre, true)))
 			return
 		}
 	}
